@@ -32,7 +32,28 @@ structure RObserved where
   panic : Option String := none
   refused : Bool := false                      -- join refused / realm configuration rejected
 
+/-- the sizes of the tables of one realm, named as the `verif` hook of /repo names them -/
+def Realm.sizes (r : Realm) : List (String × Nat) :=
+  let b := r.broker
+  let d := r.ds.d
+  let cnt (k : MatchKind) (l : List MatchKind) : Nat := (l.filter (· == k)).length
+  [ ("clients", r.clients.length), ("testaments", r.testaments.length),
+    ("subs", b.subs.length),
+    ("subs_exact", cnt .exact (b.subs.map Sub.kind)), ("subs_prefix", cnt .pfx (b.subs.map Sub.kind)),
+    ("subs_wildcard", cnt .wild (b.subs.map Sub.kind)),
+    ("sub_index", b.index.length), ("history_stores", b.hist.length),
+    ("sub_members", (b.subs.map (·.members.length)).foldl (· + ·) 0),
+    ("regs", d.regs.length),
+    ("regs_exact", cnt .exact (d.regs.map Reg.kind)), ("regs_prefix", cnt .pfx (d.regs.map Reg.kind)),
+    ("regs_wildcard", cnt .wild (d.regs.map Reg.kind)),
+    ("reg_index", d.index.length), ("calls", d.calls.length), ("invocations", d.invs.length),
+    ("invocation_by_call", d.byCall.length),
+    ("reg_callees", (d.regs.map (·.callees.length)).foldl (· + ·) 0) ]
+
 namespace Router
+
+def sizes (rt : Router) : List (String × List (String × Nat)) :=
+  rt.realms.map (fun p => (p.1, p.2.sizes))
 
 def realm? (rt : Router) (name : String) : Option Realm :=
   (rt.realms.find? (fun p => p.1 == name)).map (·.2)
